@@ -60,7 +60,7 @@ type cryptoCtx struct {
 	openCall *ssa.Call
 	sealCall *ssa.Call
 	methods  []*ssa.Function
-	dirIdx   map[int64]bool // byte indices of the nonce written under an isInitiator branch
+	dirIdx   map[int64]uint8 // byte index of the nonce written under a role branch -> bits set there
 }
 
 func isAEADCall(c ssa.CallInstruction, name string) bool {
@@ -69,7 +69,7 @@ func isAEADCall(c ssa.CallInstruction, name string) bool {
 }
 
 func newCryptoCtx(p *kit.Program, r *kit.Report) *cryptoCtx {
-	cx := &cryptoCtx{p: p, fields: map[*types.Var]bool{}, dirIdx: map[int64]bool{}}
+	cx := &cryptoCtx{p: p, fields: map[*types.Var]bool{}, dirIdx: map[int64]uint8{}}
 	cx.sk = p.NamedType("internal/crypto", "SessionKey")
 	if !r.Require(cx.sk != nil, "anchor-unresolved: type internal/crypto.SessionKey") {
 		return nil
@@ -120,7 +120,11 @@ func newCryptoCtx(p *kit.Program, r *kit.Report) *cryptoCtx {
 			}
 			for _, g := range kit.GuardsOf(in) {
 				if cx.readsField(g.Cond, cx.isInit) {
-					cx.dirIdx[idx] = true
+					v, _ := kit.ConstInt(st.Val)
+					if v == 0 {
+						v = 0xff
+					}
+					cx.dirIdx[idx] |= uint8(v)
 				}
 			}
 		})
@@ -147,6 +151,14 @@ func (cx *cryptoCtx) methodReads(m *ssa.Function, f *types.Var) bool {
 		if v, ok := in.(ssa.Value); ok {
 			if lf, _ := kit.LoadedField(v); lf == f {
 				found = true
+			}
+			// the field's address handed to sync/atomic counts as a read as well
+			if fa, ok := v.(*ssa.FieldAddr); ok && kit.FieldOfAddr(fa) == f && fa.Referrers() != nil {
+				for _, ref := range *fa.Referrers() {
+					if c, ok := ref.(ssa.CallInstruction); ok && kit.CalleeOf(c).Pkg == "sync/atomic" {
+						found = true
+					}
+				}
 			}
 		}
 	})
@@ -289,34 +301,25 @@ func runC01(p *kit.Program, r *kit.Report) {
 	// ---- R3 direction
 	dirOK, dirDetail := false, "no guard dominating AEAD.Open relates the received nonce's direction byte to the role field"
 	for _, g := range guards {
-		ranges, leaves := kit.ExprReads(g.Cond)
+		deps := kit.BitDepsOf(g.Cond)
 		recvCover, expCover := false, false
-		for _, rg := range ranges {
-			for idx := range cx.dirIdx {
-				if received[rg.Root] && rg.Covers(idx) {
-					recvCover = true
-				}
-				if expected[rg.Root] && rg.Covers(idx) {
-					expCover = true
-				}
+		isRecv := func(v ssa.Value) bool { return received[v] }
+		isExp := func(v ssa.Value) bool { return expected[v] }
+		for idx, mask := range cx.dirIdx {
+			if deps.DependsOnBits(isRecv, idx, mask) {
+				recvCover = true
+			}
+			if deps.DependsOnBits(isExp, idx, mask) {
+				expCover = true
 			}
 		}
-		for _, l := range leaves {
+		for _, l := range deps.Leaves {
 			if lf, _ := kit.LoadedField(l); lf == cx.isInit {
 				expCover = true
 			}
 			if c, ok := l.(*ssa.Call); ok {
 				if cal := kit.CalleeOf(c); cal.Static != nil && cx.isSKMethod(cal.Static) && cx.methodReads(cal.Static, cx.isInit) {
-					// helper taking (part of) the received nonce and consulting the role
-					for _, a := range c.Call.Args {
-						if rg, ok := kit.AddrRange(a); ok && received[rg.Root] {
-							for idx := range cx.dirIdx {
-								if rg.Covers(idx) {
-									recvCover, expCover = true, true
-								}
-							}
-						}
-					}
+					expCover = true
 				}
 			}
 		}
